@@ -209,7 +209,7 @@ fn gen_c01(seed: u64, _index: u64, tier: Tier) -> ResolvePlan {
     // ---- optionally a byzantine upstream
     knobs.local_targets = owned_names.clone();
     if r.chance(0.4) {
-        let kinds = ["alias_into_local", "ans_unrelated_owner", "ans_offpath_cname", "add_glue_unnamed", "auth_ns_nonancestor", "ans_wrong_type"];
+        let kinds = ["alias_into_local", "alias_through_local", "ans_unrelated_owner", "ans_offpath_cname", "add_glue_unnamed", "auth_ns_nonancestor", "ans_wrong_type"];
         let n = r.range(1, kinds.len() as u64) as usize;
         knobs.upstream_fault_kinds = kinds.iter().take(n).map(|s| (*s).to_string()).collect();
         knobs.faults.insert("upstream.fault".into(), *r.pick(&[0.2, 0.5, 1.0]));
